@@ -186,6 +186,18 @@ func toEnumList(src val.EnumList, v interface{}) (val.EnumList, error) {
 			}
 		}
 		return l, nil
+	case val.EnumList:
+		// what Value() of an enum list is, and so what a reflection node keeps for the leaf-list
+		return toEnumList(src, []val.Enum(x))
+	case []val.Enum:
+		l := make([]val.Enum, len(x))
+		var err error
+		for i := 0; i < len(x); i++ {
+			if l[i], err = toEnum(src, x[i]); err != nil {
+				return nil, err
+			}
+		}
+		return l, nil
 	default:
 		if e, err := toEnum(src, v); err == nil {
 			return val.EnumList([]val.Enum{e}), nil
